@@ -76,7 +76,9 @@ ReaderTags(ev, src) == IF Has(ev, "calls") THEN CallTags(src, RdInit(src), ev.ca
 ---------------------------------------------------------------------------
 \* Message::try_read / try_read_validate
 MsgOutcomeTags(sp, out, rem) ==
-  IF ~Finished(out) THEN <<"outcome-" \o out.t>>
+  \* (a panic on an input the specification ACCEPTS is also a failure to accept it -- C05's "accepts iff";
+  \*  a panic on an input the specification rejects is C01's business only)
+  IF ~Finished(out) THEN <<"outcome-" \o out.t>> \o T(sp.res.t = "ok", "unaccepted")
   ELSE IF sp.res.t = "ok"
     THEN IF out.t # "ok" THEN <<"verdict">>
          ELSE T(~MsgEq(sp.res.v, out.v), "value") \o T(rem # sp.rem, "rem")
@@ -104,15 +106,22 @@ DiffTags(shape, ev) ==
   LET rs == Runs(ev) IN
   T(\E i, j \in 1..Len(rs) : i < j /\ ~OutSame(shape, rs[i], rs[j]), "reader-diff")
 
+\* C08 on the implementation's own result: an accepted message that carries a Length consumed exactly that many
+\* octets (whatever the specification thinks of the input)
+ConsumedDeclared(in, out, rem) ==
+  IF ~Finished(out) \/ out.t # "ok" THEN << >>
+  ELSE LET declared == IF out.v.k = "Control" THEN <<out.v.length>> ELSE out.v.length
+       IN T(declared # << >> /\ Len(in) - rem # declared[1], "consumed-declared")
+
 VDecode(ev) ==
   LET sp == DecodeMessage(ev.in, OptsOf(ev))
-      One(r) == MsgOutcomeTags(sp, r.out, r.rem) \o ReaderTags(r, ev.in)
+      One(r) == MsgOutcomeTags(sp, r.out, r.rem) \o ConsumedDeclared(ev.in, r.out, r.rem) \o ReaderTags(r, ev.in)
   IN ConcatTags(One, Runs(ev), 1) \o DiffTags("msg", ev) \o IoTags(ev)
 
 \* AVP::try_read_greedy
 VDecodeAvps(ev) ==
   LET sp == DecodeAvps(ev.in)
-      One(r) == (IF ~Finished(r.out) THEN <<"outcome-" \o r.out.t>>
+      One(r) == (IF ~Finished(r.out) THEN <<"outcome-" \o r.out.t>> \o T(\E i \in 1..Len(sp.items) : sp.items[i].t = "ok", "unaccepted")
                  ELSE T(~ItemsEq(sp.items, r.out.v), "value")
                       \o T(ItemsEq(sp.items, r.out.v) /\ ~sp.stopped /\ r.rem # sp.rem, "rem"))
                 \o ReaderTags(r, ev.in)
@@ -122,7 +131,7 @@ VDecodeAvps(ev) ==
 VDecodePayload(ev) ==
   LET One(r) == (IF ~IsKnownType(ev.t) \/ ev.t = 39
                    THEN T(r.out.t # "none", "harness-per-type")
-                 ELSE IF ~Finished(r.out) THEN <<"outcome-" \o r.out.t>>
+                 ELSE IF ~Finished(r.out) THEN <<"outcome-" \o r.out.t>> \o T(DecodePayload(ev.t, ev.in).t = "ok", "unaccepted")
                  ELSE T(~ItemEq(DecodePayload(ev.t, ev.in), r.out), "value"))
                 \o ReaderTags(r, ev.in)
   IN ConcatTags(One, Runs(ev), 1) \o DiffTags("item", ev) \o IoTags(ev)
